@@ -6,16 +6,20 @@ class C18(Spec):
     drv = "drv_c18"
     harness = "h_c18"
     required_theorems = ("C18.parallel_eq_seq", "C18.computation_root_eq", "C18.branch_verifies",
-                         "C18.multilayer_ok", "C18.mutated_complete", "C18.binding", "C18.binding_pattern",
-                         "C18.dup_tail_same_root")
+                         "C18.multilayer_ok", "C18.multilayer_total", "C18.multilayer_tiles",
+                         "C18.mutated_complete", "C18.binding", "C18.binding_pattern", "C18.binding_nodup",
+                         "C18.binding_dupcheck", "C18.dup_tail_same_root")
     claimed = True
     level_text = ("Lean theorems about the model of common/merkle/merkle.go for every list of hashes and every worker "
                   "count, over an arbitrary two-to-one function H2: chunked parallel root = sequential root "
                   "(parallel_eq_seq); streaming Computation root = sequential root without panic below 2^32 leaves "
                   "(computation_root_eq); every position's branch verifies (branch_verifies); child-chain roots, their "
-                  "branches and the per-transaction branches verify (multilayer_ok); equal roots imply equal lists, or a "
-                  "list flagged mutated, or an explicit H2 collision, or a leaf equal to an inner value (binding, "
-                  "mutated_complete). The model is tied to the code by a byte-exact differential run (Lean SHA-256) under "
+                  "branches and the per-transaction branches verify, the child chains tile the transaction list and the "
+                  "computation cannot panic on non-nil hashes (multilayer_ok, multilayer_tiles, multilayer_total); equal roots of "
+                  "different lists imply that one list repeats a transaction and is rejected by the duplicate-transaction check of "
+                  "PreExecBlock (DelDupTx), or an explicit H2 collision, or a leaf equal to an inner value (binding_dupcheck, "
+                  "binding_nodup); the same with Computation's mutated flag (binding, mutated_complete) — a return value no caller "
+                  "in /repo reads. The model is tied to the code by a byte-exact differential run (Lean SHA-256) under "
                   "taskset for 1,2,3,5,8,13,16 CPUs: roots for a stratified set of leaf counts up to 4096 (thorough: every "
                   "count), branches at many positions, duplicated-tail lists, mixed main/para transaction lists; the "
                   "predicates are evaluated on the implementation and the roots are compared across worker counts; the stored "
@@ -25,11 +29,19 @@ class C18(Spec):
                   "64-byte buffer is modelled for 32-byte or nil arguments only); blockchain.getMultiLayerProofs is driven through a "
                   "non-mining testnode (ProcessBlock, then ProcQueryTxMsg for every transaction, proofs verified against the stored "
                   "header) — proofs of blocks stored in TransactionSort order verify, proofs of accepted unsorted peer blocks do not "
-                  "(known finding); worker counts above 16 are covered by the theorem only.")
+                  "(known finding); a duplicated-tail peer block (same TxHash) is delivered to the node and must be rejected "
+                  "(observed: ErrTxDup) — the defence is the duplicate-transaction check, which needs ForkCheckTxDup active and "
+                  "Exec.DisableTxDupCheck off, not the mutated flag; binding theorems need non-empty lists (the root of the empty "
+                  "list is nil), computation/branch theorems fewer than 2^32 leaves (Go panics beyond: modelled); "
+                  "worker counts above 16 are covered by the theorem only.")
     assumptions = (
         "GetHashFromTwoHash behaves as a function of its two 32-byte (or nil) arguments; sha256 is the Go standard library's",
         "runtime.NumCPU() equals the affinity set by taskset (checked: the harness prints the count it sees)",
         "goroutine completion order does not matter: each child root is stored at its own index (modelled as a pure map)",
+        "the model is pure, Go's getMerkleRoot overwrites the slice it is given and appends into spare capacity: assumed that no "
+        "caller reuses the argument afterwards (true of every in-repo caller; the harness passes a fresh copy and counts the overwrite)",
+        "binding_dupcheck: the duplicate check compares tx.Hash(), the leaves after ForkRootHash are tx.FullHash(): equal full hashes "
+        "are assumed to mean equal transactions (SHA-256 of the whole encoding, C16); only the in-block part (DelDupTx) is modelled",
     )
     NCPUS = (1, 2, 3, 5, 8, 13, 16)
 
